@@ -986,6 +986,52 @@ def r_parity(rep, f):
 
 
 # ------------------------------------------------------------------------------------------ R-TOL-FROM
+def r_tol_route_helpers(rep, f):
+    """inside the crate the two tolerances travel as two parameters of the same type: at every call of a crate function that
+    has parameters named `atol` and `rtol` (hinit, helpers) from a function that has them too, the argument in the `atol` position
+    derives from the caller's `atol` and the one in the `rtol` position from its `rtol` - swapped, the callee computes
+    rtol + atol*|y| and nothing fails to compile"""
+    n = 0
+    for b in f.body_list:
+        fn = b["def"]
+        cp = {p_.get("name"): p_.get("id") for p_ in b.get("params", []) if p_.get("k") == "PBind"}
+        if "atol" not in cp or "rtol" not in cp or "::{closure" in fn:
+            continue
+        for c in tast.find(b["body"], lambda z: z.get("k") in ("Call", "MethodCall") and (z.get("def") or "") in f.bodies and (z.get("def") or "") != fn):
+            cb = f.bodies[c["def"]]
+            pn = [p_.get("name") for p_ in cb.get("params", [])]
+            if "atol" not in pn or "rtol" not in pn:
+                continue
+            args = ([c["recv"]] if c.get("k") == "MethodCall" else []) + list(c["args"])
+            n += 1
+            key = "R-TOL-ROUTE:%s->%s" % (fn, c["def"].split("::")[-1])
+            probs = []
+            for want in ("atol", "rtol"):
+                idx = pn.index(want)
+                if idx >= len(args):
+                    continue
+                src = args[idx]
+                roots = set()
+                for _ in range(4):
+                    ids = [q for q in tast.find(src, lambda z: z.get("k") == "Path" and z.get("res") == "local")]
+                    roots = {q.get("id") for q in ids}
+                    if roots & set(cp.values()) or len(ids) != 1:
+                        break
+                    lets = tast.find(b["body"], lambda z: z.get("k") == "Let" and z["pat"].get("k") == "PBind" and z["pat"].get("id") == ids[0].get("id") and z.get("init") is not None)
+                    if len(lets) != 1:
+                        break
+                    src = lets[0]["init"]
+                other = "rtol" if want == "atol" else "atol"
+                if cp[other] in roots and cp[want] not in roots:
+                    probs.append("the callee's `%s` receives the caller's `%s` (`%s`)" % (want, other, tast.render(args[idx])[:30]))
+            if probs:
+                rep.violation("R-TOL-ROUTE", key, "; ".join(probs) + ": the callee then weighs with rtol + atol*|y|", c.get("sp"))
+            else:
+                rep.ok("R-TOL-ROUTE", key, "atol -> atol, rtol -> rtol")
+    if n < 4:
+        rep.inconc("R-TOL-ROUTE", "R-TOL-ROUTE:helpers:floor", "only %d internal calls passing both tolerances found (expected >= 4: the hinit callers)" % n)
+
+
 def r_tol_from(rep, f):
     """A tolerance given as a vector (slice, array, Vec) is per-component: after the conversion, component i of the Tolerance
     reads back entry i of what the user passed.  Every `From<..> for Tolerance` conversion of a sequence is evaluated exactly
